@@ -181,7 +181,7 @@ Hputelement(int32 file_id, uint16 tag, uint16 ref, const uint8 *data, int32 leng
 {
     H4V_CHECK(g_frec != NULL && (g_frec->access & DFACC_WRITE), "C14: a vgroup is written to a file opened read-only");
     H4V_CHECK(data != NULL && length > 0, "Hputelement: a record of positive length");
-#ifdef H4V_CBMC
+#if defined(H4V_CBMC) && !defined(T_NOROK)
     __CPROVER_assert(__CPROVER_r_ok(data, (size_t)length), "H4V: Hputelement: the record lies inside the buffer");
 #endif
     g_put_n++;
@@ -191,7 +191,9 @@ Hputelement(int32 file_id, uint16 tag, uint16 ref, const uint8 *data, int32 leng
     g_put_ref  = ref;
     g_put_data = data;
     g_put_len  = length;
+#ifndef T_NOBYTE
     g_put_byte = (length > 0 && g_c < (size_t)length) ? data[g_c] : 0;
+#endif
     if (g_put_may_fail) {
         H4V_ND(int, put_fault);
         if (put_fault) {
@@ -662,30 +664,45 @@ lh_env(void)
     H4V_ASSUME(g_c < sizeof(lh_exp));
     g_vg->vgname  = NULL;
     g_vg->vgclass = NULL;
+#ifdef LH_ATTR
+    g_vg->flags  = VG_ATTR_SET;
+    g_vg->nattrs = 1;
+#else
+    g_vg->flags  = 0;
+    g_vg->nattrs = 0;
+#endif
     g_v->nattach  = 0;
     g_vg->marked  = 0; /* nothing pending while nobody is attached (established by Vdetach, contract above) */
 }
 
-/* an edit as Vaddtagref / Vdeletetagref / Vsetname would make it */
+/* an edit as Vaddtagref / Vdeletetagref / Vsetname would make it.  The SHAPE of the edited group is fixed per run
+   (-DLH_N members, -DLH_NAME: a one-character name, -DLH_ATTR: one attribute and the version-4 flags word): with constant
+   record offsets the inlined vpackvg is cheap; symbolic offsets ran cbmc out of memory (probed).  Member tags/refs, the
+   name character, the attribute and every other field are arbitrary. */
+#ifndef LH_N
+#define LH_N 2
+#endif
 static void
 lh_edit(void)
 {
-    H4V_ND(uint16, ed_nvelt);
     H4V_ND(uint16, ed_tag0);
     H4V_ND(uint16, ed_ref0);
-    H4V_ND(int, ed_name);
-    H4V_ND(char, ed_ch);
-    H4V_ASSUME(ed_nvelt <= 2 && ed_ch != '\0');
-    g_vg->nvelt  = ed_nvelt;
+    H4V_ND(uint16, ed_tag1);
+    H4V_ND(uint16, ed_ref1);
+    g_vg->nvelt  = LH_N;
     g_vg->tag[0] = ed_tag0;
     g_vg->ref[0] = ed_ref0;
-    if (ed_name) {
-        char *nm = malloc(2);
-        H4V_ASSUME(nm != NULL);
-        nm[0]        = ed_ch;
-        nm[1]        = '\0';
-        g_vg->vgname = nm;
-    }
+    g_vg->tag[1] = ed_tag1;
+    g_vg->ref[1] = ed_ref1;
+#ifdef LH_NAME
+    H4V_ND(char, ed_ch);
+    H4V_ASSUME(ed_ch != '\0');
+    char *nm = malloc(2);
+    H4V_ASSUME(nm != NULL);
+    nm[0]        = ed_ch;
+    nm[1]        = '\0';
+    g_vg->vgname = nm;
+#endif
     g_vg->marked = 1;
 }
 
@@ -745,7 +762,7 @@ h_hist_edit_reattach(void)
     int32 d3 = Vdetach(id1);
     int32 d4 = Vdetach(id2);
     H4V_CHECK(d3 == FAIL && d4 == FAIL && g_put_n == n0 && g_v->nattach == 0 && g_rem_n == 2, "stale ids are refused and change nothing");
-    H4V_COVER(order == 0 && acc2 == 'r' && g_vg->nvelt == 2 && g_vg->vgname != NULL, "history: r handle detached first");
+    H4V_COVER(order == 0 && acc2 == 'r', "history: r handle detached first");
     H4V_COVER(g_reuse_n == 1, "history: descriptor reused");
 #endif
     H4V_CANARY("hist_edit_reattach end");
